@@ -105,6 +105,8 @@ def install_builtins(reg: Registry):
             return list(range(*args))
         if len(args) == 1:
             n = args[0]
+            if isinstance(n, z3.ArithRef) and n.is_real():
+                n = z3.simplify(z3.ToInt(n))          # an integer-valued array element (numpy int scalar)
             return V.Seq(z3.If(n >= 0, n, 0), lambda k: k)
         if len(args) == 2:
             lo, hi = args
@@ -283,7 +285,8 @@ def install_builtins(reg: Registry):
     @b("set")
     def _set(ex, args, kw, node):
         if not args:
-            return V.PySet([])
+            factory = getattr(ex, "empty_set_factory", None)      # a contract may ask for a symbolic set (keys seen so far)
+            return factory(ex) if factory else V.PySet([])
         if hasattr(args[0], "sx_set"):
             return args[0].sx_set(ex, node)
         return V.PySet(V.iterate(ex, args[0], node))
